@@ -13,10 +13,12 @@ def selects (a : AttrId) (valType : String) : What → Bool
   | .attr b => b == a
   | .junk => false
 
-def listed (c : Case) : Bool := c.what.any (selects c.attr c.valType)
+def listed (what : List What) (q : Query) : Bool := what.any (selects q.attr q.valType)
 
+/-- every answer is judged on its own: whatever the same filter object was asked before does not matter -/
 def spec (c : Case) (o : Obs) : Bool :=
-  o.inc == FR.ofBool (listed c) && o.exc == FR.ofBool (!listed c)
+  o.inc == c.queries.map (fun q => FR.ofBool (listed c.what q)) &&
+  o.exc == c.queries.map (fun q => FR.ofBool (!listed c.what q))
 
 def wf (_ : Case) : Bool := true
 def known (_ : Case) : List String := []
